@@ -28,7 +28,10 @@ def optList (kw : String) : Option String → List String
   | none => []
 
 def Cmd.selector (k : Cmd) : String :=
-  if k.peers.isEmpty then "peer *" else ", ".intercalate (k.peers.map (fun n => "peer " ++ n))
+  match k.peers with
+  | [] => "peer *"
+  | [n] => "peer " ++ n
+  | ns => "peer [ " ++ " , ".intercalate ns ++ " ]"
 
 /-- the text of a command: selector, action, `route <prefix> next-hop <nh>`, then the attributes in
     the helper's order, then the path id -/
@@ -94,9 +97,9 @@ theorem selector_spec (c : Cfg) (t : St) (k : Nat) (ip : String) :
   by_cases hs : c.neighbors.any (· == "*") = true
   · simp [hs]
   · simp only [hs]
-    by_cases he : c.neighbors.isEmpty = true
-    · simp [he]
-    · simp [he]
+    cases hn : c.neighbors with
+    | nil => simp
+    | cons a rest => cases rest <;> simp
 
 theorem announces_spec (c : Cfg) (t : St) :
     (if t == .exit then false else if c.withdrawOnDown then t == .up else true) = announces c t := by
